@@ -103,6 +103,30 @@ def step (fl : Flags) (s : St) : Op → St
 
 def run (fl : Flags) (ops : List Op) (s : St) : St := ops.foldl (step F fl) s
 
+/-- `still_describes(context.last_results, calc.results)`: every remembered entry is still among the calculator's results
+    with the same value (the calculator may hold MORE: a property an observer asked for) -/
+def stillDescribes (s : St) : Bool :=
+  match s.last, s.cres with
+  | some l, some c =>
+    l.cfg == c.cfg &&
+      (match l.forces with
+       | none => true
+       | some r => (c.forces.map (deref s)) == some (deref s r))
+  | _, _ => false
+
+/-- `validate_simulation()` at the start of a run: the reference energy is asked for, the positions are remembered, and the
+    results are remembered — always (`keep = false`, the code before the repair) or only when the remembered ones no longer
+    describe the calculator's results (`keep = true`) -/
+def runStart (fl : Flags) (keep : Bool) (s : St) : St :=
+  let s1 := ensure F fl false s
+  if keep && stillDescribes s1 then { s1 with lastCfg := s1.cur }
+  else
+    match s1.cres with
+    | some d =>
+      let d' := detachD fl s1 d
+      { s1 with cres := some d', last := some d', lastCfg := s1.cur, shared := !fl.sep }
+    | none => { s1 with lastCfg := s1.cur }
+
 /-- what `atoms.get_forces()` returns now -/
 def readForces (fl : Flags) (s : St) : Option Nat :=
   let s1 := ensure F fl true s
